@@ -49,15 +49,20 @@ def doc_cases(ctx, shapes, per_shape, prefix="d"):
             text = damage(plssdoc.render_doc(doc, ctx.rng), ctx.rng)
             words = text.split(" ")
             markers = []
+            base = 500 if ctx.rng.random() < 0.25 else 10       # (a quarter of the texts: words with 'PM' inside)
             for m in range(4):          # four insertion points per text
                 pos = ctx.rng.randint(0, len(words))
-                mid = 10 + len(markers)
+                mid = base + len(markers)
                 words.insert(pos, R.marker(mid))
                 markers.append(mid)
             cfg = ctx.rng.choice(DOC_CONFIGS)
             cases.append({"id": "%s%d_%d" % (prefix, i, k), "kind": "plss", "origin": "damaged document",
                           "abs": {}, "args": {"text": " ".join(words), "config": cfg, "markers": markers,
                                               "source": "SRC-1"}})
+            if ctx.rng.random() < 0.2:
+                # what a caller holds who only asked what the tracts would be (parse(commit=False) on a description
+                # created with wait_to_parse): the returned tracts, with their own flags, are the whole report
+                cases[-1]["args"]["view"] = "dry_tracts"
     return cases
 
 
@@ -84,7 +89,8 @@ def run(ctx):
                 "documents (shapes from spec/PlssDoc.tla), damaged (colons removed, word deleted, stray Twp/Rge or section "
                 "added) with 4 marker words inserted at random word boundaries x 12 configurations; non-trivial = distinct "
                 "(text, configuration)" % (4 if thorough else 3, 6 if thorough else 5))
-    ctx.assumptions += ["marker words are 6 letters over {Q,X,J,V,Z,K}: they match none of the library's patterns and are "
+    ctx.assumptions += ["marker words are 6 letters over {Q,X,J,V,Z,K} (a quarter of the documents: with 'PM' inside, as in "
+                        "'development'): they match none of the library's patterns and are "
                         "never culled or below the 4-character reporting threshold",
                         "no principal-meridian phrases are generated (insertion points inside them are exempt)"]
 
